@@ -305,6 +305,39 @@ MUTANTS = [
             templates.replace_as_expression(''', ['malt.converters.control_flow.ControlFlowTransformer._create_state_functions']),
     ('c03-guard-names-wrong-variable', 'malt/converters/control_flow.py', '                name=ast.Constant(str(v))))',
      '                name=ast.Constant(str(block_vars[0]))))', ['malt.converters.control_flow.ControlFlowTransformer._create_state_functions']),
+    ('c07-fndefs-def-not-added', 'malt/pyct/static_analysis/reaching_fndefs.py', '      defs_out += node.ast_node', '      pass',
+     ['malt.pyct.static_analysis.reaching_fndefs.Analyzer.visit_node']),
+    ('c07-fndefs-joins-only-first-pred', 'malt/pyct/static_analysis/reaching_fndefs.py', '''    for n in node.prev:
+      defs_in |= self.out[n]''', '''    for n in node.prev:
+      defs_in |= self.out[n]
+      break''', ['malt.pyct.static_analysis.reaching_fndefs.Analyzer.visit_node']),
+    ('c07-fndefs-external-defs-dropped', 'malt/pyct/static_analysis/reaching_fndefs.py', '      defs_in = _NodeState(self.external_defs)',
+     '      defs_in = _NodeState()', ['malt.pyct.static_analysis.reaching_fndefs.Analyzer.visit_node']),
+    ('c07-fndefs-or-is-intersection', 'malt/pyct/static_analysis/reaching_fndefs.py', '    result.value.update(other.value)',
+     '    result.value.intersection_update(other.value)', ['malt.pyct.static_analysis.reaching_fndefs._NodeState.__or__']),
+    ('c07-fndefs-least-fixpoint-variant-is-harmless', 'malt/pyct/static_analysis/reaching_fndefs.py', '''    else:
+      defs_in = prev_defs_out
+''', '''    else:
+      defs_in = _NodeState()
+''', ['ok:malt.pyct.static_analysis.reaching_fndefs.Analyzer.visit_node']),
+    ('c19-typemap-copy-shares-sets', 'malt/pyct/static_analysis/type_inference.py',
+     '          s: set(other_types) for s, other_types in init_from.types.items()',
+     '          s: other_types for s, other_types in init_from.types.items()',
+     ['malt.pyct.static_analysis.type_inference._TypeMap.__init__']),
+    ('c19-typemap-join-forgets-other', 'malt/pyct/static_analysis/type_inference.py', '      self_types.update(other_types)\n    return result',
+     '      pass\n    return result', ['malt.pyct.static_analysis.type_inference._TypeMap.__or__']),
+    ('c19-typemap-join-skips-new-keys', 'malt/pyct/static_analysis/type_inference.py', '''      if s not in result.types:
+        self_types = set()
+        result.types[s] = self_types''', '''      if s not in result.types:
+        continue''', ['malt.pyct.static_analysis.type_inference._TypeMap.__or__']),
+    ('c09-closure-matched-by-position', 'malt/pyct/transpiler.py', '    closure_map = dict(zip(self._freevars, closure))',
+     '    closure_map = dict(zip(factory_freevars, closure))', ['malt.pyct.transpiler._PythonFnFactory.instantiate']),
+    ('c09-defaults-only-when-truthy', 'malt/pyct/transpiler.py', '    new_fn.__defaults__ = defaults\n',
+     '    if defaults:\n      new_fn.__defaults__ = defaults\n', ['malt.pyct.transpiler._PythonFnFactory.instantiate']),
+    ('c09-kwdefaults-dropped', 'malt/pyct/transpiler.py', '    new_fn.__kwdefaults__ = kwdefaults\n', '',
+     ['malt.pyct.transpiler._PythonFnFactory.instantiate']),
+    ('c09-globals-copied', 'malt/pyct/transpiler.py', '        globals=globals_,', '        globals=dict(globals_),',
+     ['malt.pyct.transpiler._PythonFnFactory.instantiate']),
     ('c10-has-ignores-subkey', 'malt/pyct/cache.py', '    return subkey in parent', '    return True',
      ['malt.pyct.cache._TransformedFnCache.has']),
 ]
@@ -327,10 +360,12 @@ for n in sys.argv[1:]:
         continue
     r = verify_contract(w, w.contracts[n], 30000)
     st = r.status
-    if st == 'undecided' and any(o.status == 'unknown' for o in r.obligations):
+    via = []
+    if st == 'undecided' and (any(o.status == 'unknown' for o in r.obligations) or not r.obligations):
         if hooks.run_hook(n) is not None:
             st = 'refuted'      # unknown + concrete failing input on the real code
-    out[n] = [st, r.message[:200], [o.name for o in r.obligations if o.status != 'proved'][:4]]
+            via = ['<replay hook; engine: ' + (r.message[:80] or 'solver unknown') + '>']
+    out[n] = [st, r.message[:200], [o.name for o in r.obligations if o.status != 'proved'][:4] + (via if st == 'refuted' else [])]
 print(json.dumps(out))
 ''' % ROOT
 
@@ -362,8 +397,10 @@ def main():
         bad += 1
         continue
       open(path, 'w').write(src.replace(old, new))
-      res = run_on(repo, names)
-      ok = all(res.get(n, ['?'])[0] == 'refuted' for n in names) if names else True
+      res = run_on(repo, [n[3:] if n.startswith('ok:') else n for n in names])
+      # 'ok:<contract>': a harmless edit -- the contract must still be proved (no false alarm)
+      ok = all(res.get(n[3:], ['?'])[0] == 'proved' if n.startswith('ok:') else res.get(n, ['?'])[0] == 'refuted'
+               for n in names) if names else True
       print('%s %s %s' % ('caught ' if ok else 'MISSED ', mid, {k: (v[0], v[2]) for k, v in res.items()} if '__error__' not in res else res))
       bad += 0 if ok else 1
       shutil.rmtree(repo)
